@@ -147,6 +147,32 @@ def _with_dummy(script, witness, sel):
     return None
 
 
+def _sig_items(script, witness):
+    """(where, index, blob) of everything in the unlocking data that looks like a DER signature plus hash-type byte"""
+    out = []
+    for k, w in enumerate(witness):
+        if len(w) >= 9 and w[0] == 0x30 and w[1] == len(w) - 3:
+            out.append(("w", k, bytes(w)))
+    items = S.script_pushes(script) or []
+    for k, it in enumerate(items):
+        if len(it) >= 9 and it[0] == 0x30 and it[1] == len(it) - 3 and script.count(it) == 1:
+            out.append(("s", k, bytes(it)))
+    return out
+
+
+def _with_hashtype_bit(script, witness, which, bit):
+    sigs = _sig_items(script, tuple(witness))
+    if not sigs:
+        return None
+    where, k, blob = sigs[which % len(sigs)]
+    new = blob[:-1] + bytes([blob[-1] ^ (1 << (bit % 8))])
+    if where == "w":
+        w = list(witness)
+        w[k] = new
+        return script, tuple(w)
+    return script.replace(blob, new, 1), tuple(witness)
+
+
 def mutate(model, mut):
     """pure: returns (new model, label) ; label 'nop' when the mutation does not apply to this transaction"""
     m = copy.deepcopy(model)
@@ -213,6 +239,8 @@ def mutate(model, mut):
             return m, "nop"
         for f in ("script", "witness", "src"):
             ins[a][f], ins[b][f] = ins[b][f], ins[a][f]
+        ta, tb = ins[a].get("tampered", False), ins[b].get("tampered", False)
+        ins[a]["tampered"], ins[b]["tampered"] = tb, ta
     elif kind == "dummy":
         # unlocking data no signature commits to: the extra element OP_CHECKMULTISIG pops (empty as signed) becomes
         # non-empty.  Without the NULLDUMMY policy flag - the default validation does not set it - the input stays valid.
@@ -221,6 +249,15 @@ def mutate(model, mut):
         if new is None:
             return m, "nop"
         ins[j]["script"], ins[j]["witness"] = new
+    elif kind == "sig_hashtype":
+        # the hash-type byte at the end of one signature is changed (any bit, also the undefined ones): the byte is part of
+        # what was signed, so the reference interpreter decides - normally the input must fail
+        j = mut[1] % n_in
+        new = _with_hashtype_bit(ins[j]["script"], ins[j]["witness"], mut[2], mut[3])
+        if new is None:
+            return m, "nop"
+        ins[j]["script"], ins[j]["witness"] = new
+        ins[j]["tampered"] = True
     elif kind == "spent_amount":
         j = mut[1] % n_in
         if not known_unspent(m, j):
@@ -300,6 +337,8 @@ class Signed:
         q = model["ins"][p]["src"]
         if q is None:
             return False, "no-unlocking-data"
+        if model["ins"][p].get("tampered"):
+            return None, "signature-bytes-changed"
         view = committed_view(model, p, self.eff[q], self.algo[q])
         if model["unspents"][p][1] != self.spk0[q]:
             if len(view) == 1 and view == self.view0[q]:
@@ -378,6 +417,7 @@ def full_catalogue(model, seed):
         muts += [["swap_in", j, b] for b in range(j + 1, n_in)]
         muts += [["swap_unlock", j, b] for b in range(j + 1, n_in)]
         muts += [["dummy", j, nxt(8)]]
+        muts += [["sig_hashtype", j, s, b] for s in range(3) for b in (5, nxt(8))]
     for o in range(n_out):
         muts += [["out_value", o, nxt(51)], ["out_script", o, nxt(40), nxt(8)], ["remove_out", o]]
         muts += [["swap_out", o, b] for b in range(o + 1, n_out)]
@@ -428,6 +468,7 @@ def s_mutation():
         st.tuples(st.just("swap_in"), j, j),
         st.tuples(st.just("swap_unlock"), j, j),
         st.tuples(st.just("dummy"), j, st.integers(0, 7)),
+        st.tuples(st.just("sig_hashtype"), j, st.integers(0, 3), st.integers(0, 7)),
         st.tuples(st.just("spent_amount"), j, st.integers(0, 50)),
         st.tuples(st.just("spent_script"), j, st.integers(0, 200), st.integers(0, 7)),
         st.tuples(st.just("unspents"), st.sampled_from(["empty", "short", "none"]), j),
@@ -534,6 +575,17 @@ def apply_live(tx, T, model_before, mut):
         new = _with_dummy(ti.script, ti.witness, mut[2])
         if new is None:
             raise HarnessError("dummy mutation applied to an input without a multisig unlocking stack")
+        ti.script, ti.witness = new[0], list(new[1])
+
+        def undo():
+            ti.script, ti.witness = old[0], list(old[1])
+        return undo
+    if kind == "sig_hashtype":
+        ti = ins[mut[1] % n_in]
+        old = (ti.script, list(ti.witness))
+        new = _with_hashtype_bit(ti.script, ti.witness, mut[2], mut[3])
+        if new is None:
+            raise HarnessError("sig_hashtype mutation applied to an input without a signature")
         ti.script, ti.witness = new[0], list(new[1])
 
         def undo():
